@@ -22,9 +22,10 @@ class OutOfScope(Exception):
     """the pattern uses something C05's quantifier excludes (O1)"""
 
 
-def parse(pattern):
+def parse(pattern, liberal_literals=False):
     """-> (elements, branch).  Raises BadPattern for what the statement says is rejected,
-    OutOfScope for literal segments outside [A-Za-z0-9_-]."""
+    OutOfScope for literal segments outside [A-Za-z0-9_-] (liberal_literals: any text without angle brackets is a literal -
+    for the checks whose subject is not the pattern language)."""
     if not pattern.startswith('/'):
         raise BadPattern('no leading slash')
     if '//' in pattern:
@@ -61,7 +62,7 @@ def parse(pattern):
                 raise BadPattern('unknown operator')
             elements.append(('bind', name, op, typ or 'str'))
         else:
-            if not part or any(c not in LIT_CHARS for c in part):
+            if not part or (any(c not in LIT_CHARS for c in part) and not (liberal_literals and not any(c in '<>' for c in part))):
                 raise OutOfScope('literal outside [A-Za-z0-9_-]: %r' % part)
             elements.append(('lit', part))
     return elements, branch
